@@ -1,4 +1,4 @@
-import PppModel.Driver.Ops
+import PppModel.Driver.OpsV1
 
 open Driver
 
@@ -18,7 +18,40 @@ def evalLine (line : String) : String :=
     | none => "bad-op"
   | "bld" => optStr (opBld rest)
   | "wr" => optStr (opWr rest)
-  | "tbl" => opTbl
+  | "tbl" => opTbl tblV1 tblInc1
+  | "v1b" => match unhex? rest with
+    | some x => outcomeStr (opV1b x)
+    | none => "bad-op"
+  | "v1s" => match unhex? rest with
+    | some x => opV1s x
+    | none => "bad-op"
+  | "auto" => match bytesSpec? rest with
+    | some x => outcomeStr (opAuto x)
+    | none => "bad-op"
+  | "fmt1" => optStr (opFmt1 rest)
+  | "rt1" => optStr (opRt1 rest)
+  | "ctor" => optStr (opCtor rest)
+  | "ip4p" => match unhex? rest with
+    | some x => opIp4p x
+    | none => "bad-op"
+  | "ip6p" => match unhex? rest with
+    | some x => opIp6p x
+    | none => "bad-op"
+  | "u16p" => match unhex? rest with
+    | some x => opU16p x
+    | none => "bad-op"
+  | "utf8" => match unhex? rest with
+    | some x => b01 (Utf8.valid x)
+    | none => "bad-op"
+  | "ip4d" => match ip4? rest with
+    | some a => hexOf (StdNet.displayIpv4 a)
+    | none => "bad-op"
+  | "ip6d" => match fix? 16 rest with
+    | some a => hexOf (StdNet.displayIpv6 a)
+    | none => "bad-op"
+  | "u16d" => match port? rest with
+    | some p => hexOf (StdInt.dec p.toNat)
+    | none => "bad-op"
   | _ => "unsupported"
 
 partial def loop (h : IO.FS.Stream) (out : IO.FS.Stream) : IO Unit := do
